@@ -5,6 +5,8 @@ import TTProofs.Lemmas.C01_Pruning
 import TTProofs.Lemmas.C01_Tree
 import TTProofs.Lemmas.C01_TipStates
 import TTProofs.Lemmas.C01_Patterns
+import TTProofs.Lemmas.C01_Main
+import TTProofs.Lemmas.C01_Tables
 import TTProofs.Lemmas.ScalarReal
 import Mathlib.Algebra.Order.Field.Rat
 /-!
@@ -32,12 +34,8 @@ theorem peel_eq_marginal {R : Type} [CommSemiring R] {K S : Nat}
     (π : Fin S → R) (props : Fin K → R) (mats : Mats R K S) (tip : Nat → Fin S → R)
     (n : Nat) (l r : BTree) (hleaves : ∀ i ∈ (BTree.node l r).leaves, i < n) :
     siteLik π props mats (postorder (setupIndexes n (.node l r))) n tip
-      = some (marginal π props mats tip (setupIndexes n (.node l r))) := by
-  have hwf := setupIndexes_WF n (.node l r) hleaves
-  obtain ⟨i, il, ir, e⟩ := setupIndexes_node n l r
-  rw [e] at hwf ⊢
-  unfold siteLik
-  rw [rootPartial_postorder mats tip n i il ir hwf, Option.map_some, rootSum_eq_marginal]
+      = some (marginal π props mats tip (setupIndexes n (.node l r))) :=
+  TT.C01.peel_eq_marginal π props mats tip n l r hleaves
 
 example : (∀ i ∈ (BTree.node (.node (.leaf 2) (.leaf 0)) (.leaf 1)).leaves, i < 3) := by decide
 
@@ -92,15 +90,8 @@ theorem tipStates_eq_tipPartials {R : Type} [CommSemiring R] {K S : Nat}
     (hrow : ∀ b k s, ∑ j, mats b k s j = 1) :
     siteLikTS π props mats (postorder (setupIndexes n (.node l r))) tipState
       = siteLik π props mats (postorder (setupIndexes n (.node l r))) n
-          (fun i => stateVec (tipState i)) := by
-  have hwf := setupIndexes_WF n (.node l r) hleaves
-  have hlen : (postorder (setupIndexes n (.node l r))).length + 1 = n := by
-    rw [postorder_length, setupIndexes_internals, List.length_range', ← BTree.leaves_length, hn]
-  obtain ⟨i, il, ir, e⟩ := setupIndexes_node n l r
-  rw [e] at hwf hlen ⊢
-  rw [siteLikTS_eq mats tipState n hrow π props i il ir hwf hlen]
-  unfold siteLik
-  rw [rootPartial_postorder mats _ n i il ir hwf, Option.map_some]
+          (fun i => stateVec (tipState i)) :=
+  TT.C01.tipStates_eq_tipPartials π props mats tipState n l r hleaves hn hrow
 
 example : ∀ (b : Nat) (k : Fin 1) (s : Fin 2), ∑ j, (fun _ _ _ _ => (1 / 2 : ℚ) : Mats ℚ 1 2) b k s j = 1 := by
   intro b k s; simp
@@ -111,10 +102,8 @@ example : ∀ (b : Nat) (k : Fin 1) (s : Fin 2), ∑ j, (fun _ _ _ _ => (1 / 2 :
     `Σ_{c ∈ columns} f c = Σ_{(p,w) ∈ compress columns} w • f p`, for every `f`. -/
 theorem compress_sum {C : Type} [DecidableEq C] [LT C] [DecidableLT C] {M : Type} [AddCommMonoid M]
     (f : C → M) (cols : List C) :
-    ((compress cols).map fun pw => pw.2 • f pw.1).sum = (cols.map f).sum := by
-  unfold compress
-  rw [foldl_insertCount_sum]
-  simp
+    ((compress cols).map fun pw => pw.2 • f pw.1).sum = (cols.map f).sum :=
+  TT.C01.compress_sum f cols
 
 /-- the patterns are exactly the columns that occur -/
 theorem compress_keys {C : Type} [DecidableEq C] [LT C] [DecidableLT C] (x : C) (cols : List C) :
@@ -163,9 +152,6 @@ def iupacStd : List (Nat × List Nat) :=
     (72 /- H not G -/, [1, 1, 0, 1]), (86 /- V not T -/, [1, 1, 1, 0]),
     (78 /- N any -/, [1, 1, 1, 1]) ]
 
-/-- ASCII upper-casing of a code point -/
-def upperCode (o : Nat) : Nat := if 97 ≤ o ∧ o ≤ 122 then o - 32 else o
-
 /-- the standard's tip vector: the union of the states a letter may stand for (either case);
     anything that is not an IUPAC letter (gap `-`, `?`, …) is missing data = all states -/
 def iupacSpec (o : Nat) : List Nat :=
@@ -181,20 +167,15 @@ theorem iupac_table : ∀ o, o < 128 → nucPartialCode true o = some (iupacSpec
 theorem iupac_table_char (c : Char) (h : c.toNat < 128) : nucPartial true c = some (iupacSpec c.toNat) :=
   iupac_table c.toNat h
 
-/-- the state a plain base stands for (A0 C1 G2 T3 U3, either case), 4 = missing for anything else -/
-def plainState (o : Nat) : Nat :=
-  match upperCode o with
-  | 65 => 0 | 67 => 1 | 71 => 2 | 84 => 3 | 85 => 3 | _ => 4
-
-/-- tip states (`compress_alignment_states`): plain bases get their state, everything else the
-    missing state `4` -/
-theorem tipstate_table : ∀ o, o < 128 → nucTipStateCode o = some (plainState o) := by decide
+/-- tip states (`compress_alignment_states`): plain bases (A0 C1 G2 T3 U3, either case; `plainState`) get their
+    state, everything else the missing state `4` -/
+theorem tipstate_table : ∀ o, o < 128 → nucTipStateCode o = some (plainState o) := TT.C01.tipstate_table
 
 /-- with `use_ambiguities = False` the tip vector is the indicator of the plain base, and all ones for
     every other symbol — i.e. exactly the vector `stateVec` of the tip state (this is what makes the
     tip-state and tip-partial representations agree, C02) -/
 theorem noamb_table : ∀ o, o < 128 →
-    nucPartialCode false o = some (List.ofFn (stateVec (α := Nat) (S := 4) (plainState o))) := by decide
+    nucPartialCode false o = some (List.ofFn (stateVec (α := Nat) (S := 4) (plainState o))) := TT.C01.noamb_table
 
 example : nucPartial true 'r' = some [1, 0, 1, 0] ∧ nucPartial false 'R' = some [1, 1, 1, 1] ∧
     nucTipState '-' = some 4 := by decide
